@@ -426,6 +426,14 @@ class Interp:
                 raise Unsupported("enumerate of non-string")
             if f.id == "StringIO" and not e.args:
                 return Builder()
+            if self.helper(f.id) is not None:
+                r = self.inline(e, T)
+                if not r.returns:
+                    return NONE
+                val = r.returns[-1][1]
+                for gg, v in reversed(r.returns[:-1]):
+                    val = _merge(gg, v, val)
+                return val
         if isinstance(f, ast.Attribute):
             recv = self.ev(f.value)
             if z3.is_bv(recv) and recv.size() == CW:
@@ -439,6 +447,24 @@ class Interp:
             if isinstance(recv, Builder) and f.attr == "getvalue":
                 return recv
         raise Unsupported(ast.dump(e)[:100])
+
+    def helper(self, name):
+        """a plain Python function defined in the module of the function under analysis (a helper it was split into)"""
+        import types
+        f = getattr(self.fn, "__globals__", {}).get(name)
+        if isinstance(f, types.FunctionType) and f.__module__ == self.fn.__module__:
+            return f
+        return None
+
+    def inline(self, c, g):
+        """run the helper called by `c` under guard g with the evaluated arguments; returns its (guarded) return values"""
+        if c.keywords or any(isinstance(a, ast.Starred) for a in c.args):
+            raise Unsupported("helper call with keyword / starred arguments")
+        sub = Interp(self.helper(c.func.id), self.unroll)
+        r = sub.run(*[self.ev(a) for a in c.args])
+        self.res.raised = z3.Or(self.res.raised, z3.And(g, r.raised))
+        self.res.unwind.extend(z3.Implies(g, u) for u in r.unwind)
+        return r
 
     # -- statements ---------------------------------------------------------------
     def live(self, g, loop):
@@ -471,6 +497,9 @@ class Interp:
                     v = self.ev(c.args[0])
                     self.env[c.func.value.id] = Builder(tgt.items + ((g, _char(v)),))
                     return
+            if isinstance(c, ast.Call) and isinstance(c.func, ast.Name) and self.helper(c.func.id) is not None:
+                self.inline(c, g)
+                return
             raise Unsupported(ast.dump(s)[:100])
         if isinstance(s, ast.Assign):
             if len(s.targets) != 1 or not isinstance(s.targets[0], ast.Name):
